@@ -6,7 +6,7 @@
     prediction of history (in)dependence for injective-enough transforms). *)
 From Coq Require Import Extraction ExtrOcamlBasic.
 From Coq Require Import List ZArith QArith Qcanon.
-From Inovesa Require Import Model.EField.
+From Inovesa Require Import Model.EField Model.EField2 Model.EFieldProg Gen.Gen_EField.
 Import ListNotations.
 
 Extraction Language OCaml.
@@ -38,5 +38,24 @@ Definition h_masks (E : env Qc (Qc * Qc)) (o : op Qc) : list (list bool) :=
     map (writes_wake E o) (cells (nbun E * nx E)); map (writes_csr E o) (cells (nbun E * nmax E));
     map (writes_csri E o) (cells (nbun E)) ].
 
+(** the same operation through the programs GENERATED from the current source (Gen/Gen_EField.v); the
+    driver runs both and reports whether they agree (Proofs/EFieldGenP.v proves they do) *)
+Definition gstep (E : env Qc (Qc * Qc)) (o : op Qc) (s : state Qc (Qc * Qc)) : state Qc (Qc * Qc) :=
+  prog_step E (fun cut _ zi x => csrcell E cut zi x) gen_pad_prog gen_wake_prog gen_csr_prog o s.
+
+Definition h_all (E : env Qc (Qc * Qc)) (s : state Qc (Qc * Qc)) : list (list Qc) :=
+  [ sample (bp s) (nmax E); sample (wake s) (nbun E * nx E); sample (wp s) (nmax E);
+    sample (csr s) (nbun E * nmax E); sample (csri s) (nbun E);
+    map fst (sample (ff s) (nmax E)); map snd (sample (ff s) (nmax E));
+    map fst (sample (wl s) (nmax E)); map snd (sample (wl s) (nmax E)) ].
+
+(** two objects (Model/EField2.v) *)
+Definition h_step2 (E1 E2 : env Qc (Qc * Qc)) (w : who) (x : xop Qc)
+           (s : state Qc (Qc * Qc) * state Qc (Qc * Qc)) := step2 E1 E2 (w, x) s.
+Definition h_fresh2 (E1 E2 : env Qc (Qc * Qc)) := fresh2 E1 E2.
+Definition h_sel (w : who) (s : state Qc (Qc * Qc) * state Qc (Qc * Qc)) := sel w s.
+Definition h_gread (E : env Qc (Qc * Qc)) (g : getter) (s : state Qc (Qc * Qc)) : list Qc := gread E g s.
+Definition h_reads (o : op Qc) (g : getter) : bool := reads_of o g.
+
 Extraction "model_hist.ml"
-  Q2Qc this toyQ fresh step observe h_bp h_masks lfun.
+  Q2Qc this toyQ fresh step observe h_bp h_masks lfun gstep h_all h_step2 h_fresh2 h_sel h_gread h_reads.
